@@ -1,4 +1,4 @@
-import Solvor.Assign.Bridge
+import Solvor.Assign.Certify
 /-!
 Assign: the property theorems of C10 (helper lemmas are in `Lemmas.lean`, `Bridge.lean`,
 the specification vocabulary in `Spec.lean`, the mirror and the checker in `Model.lean`).
@@ -72,6 +72,20 @@ theorem padding_optimum (c : Fin r → Fin k → ℚ) (σ : Equiv.Perm (Fin (max
   rw [mcost_restrict, ← hτ]
   exact hσ τ
 
+/-- non-vacuity of `padding_optimum`: `[[5, 2], [2, 5]]`, the swap is optimal (certified by
+potentials), its real cells cost 4 -/
+example : ∃ (c : Fin 2 → Fin 2 → ℚ) (σ : Equiv.Perm (Fin (max 2 2))),
+    (∀ τ : Equiv.Perm (Fin (max 2 2)), ∑ i, pad (max 2 2) c i (σ i) ≤ ∑ i, pad (max 2 2) c i (τ i)) ∧
+    mcost c (restrict (le_max_left 2 2) σ) = 4 := by
+  refine ⟨fun i j => if i = j then 5 else 2, (Equiv.swap (0 : Fin 2) 1 : Equiv.Perm (Fin 2)), ?_, ?_⟩
+  · exact potentials_cert (n := 2) _ (fun _ => 1) (fun _ => 1) _
+      (by intro i j; fin_cases i <;> fin_cases j <;> simp [pad] <;> norm_num)
+      (by intro i; fin_cases i <;> simp [pad] <;> norm_num)
+  · rw [mcost_restrict]
+    show ∑ i : Fin 2, _ = _
+    simp [Fin.sum_univ_two, pad]
+    norm_num
+
 /-- … and, run on `mx - c`, to a maximum-cost matching of size `min r k` (`minimize=False`). -/
 theorem padding_optimum_max (c : Fin r → Fin k → ℚ) (mx : ℚ) (σ : Equiv.Perm (Fin (max r k)))
     (hσ : ∀ τ : Equiv.Perm (Fin (max r k)),
@@ -83,7 +97,17 @@ theorem padding_optimum_max (c : Fin r → Fin k → ℚ) (mx : ℚ) (σ : Equiv
   rw [mcost_compl, mcost_compl, hsz, msize_restrict rfl] at h
   linarith
 
-/-- non-vacuity of `padding_sound`/`padding_optimum`: a 2×3 matrix with a negative entry; the
+/-- non-vacuity of `padding_optimum_max`: `[[1, 4], [4, 1]]` with `mx = 4`, the swap is optimal
+for `mx - c` -/
+example : ∃ (c : Fin 2 → Fin 2 → ℚ) (mx : ℚ) (σ : Equiv.Perm (Fin (max 2 2))),
+    (∀ τ : Equiv.Perm (Fin (max 2 2)), ∑ i, pad (max 2 2) (fun i j => mx - c i j) i (σ i)
+        ≤ ∑ i, pad (max 2 2) (fun i j => mx - c i j) i (τ i)) := by
+  refine ⟨fun i j => if i = j then 1 else 4, 4, (Equiv.swap (0 : Fin 2) 1 : Equiv.Perm (Fin 2)), ?_⟩
+  exact potentials_cert (n := 2) _ (fun _ => 0) (fun _ => 0) _
+      (by intro i j; fin_cases i <;> fin_cases j <;> simp [pad])
+      (by intro i; fin_cases i <;> simp [pad])
+
+/-- non-vacuity of `padding_sound`: a 2×3 matrix with a negative entry; the
 matching `0 ↦ 2, 1 ↦ 0` has size `min 2 3` -/
 example : ∃ (c : Fin 2 → Fin 3 → ℚ) (m : Fin 2 → Option (Fin 3)),
     IsMatching m ∧ msize m = min 2 3 ∧ mcost c m = -3 :=
@@ -181,10 +205,73 @@ theorem validAsg_ofM (m : Fin r → Option (Fin k)) (hm : IsMatching m) (hsz : m
     | none => simp
     | some j => simp
 
+/-- non-vacuity of `validAsg_ofM`: the matching `0 ↦ 2, 1 ↦ 0` of a 2×3 problem -/
+example : ValidAsg 2 3 (ofM (fun i : Fin 2 => if i = 0 then some (2 : Fin 3) else some 0)) :=
+  (validAsg_ofM _ (by unfold IsMatching; decide) (by unfold msize; decide)).1
+
 /-- non-vacuity of `chkAssignment_sound`: the docstring example of `solve_hungarian`, with the
 potentials the mirror computes, is accepted (so is the maximisation of a 2×3 matrix) -/
 example : chkAssignment [[10, 5, 13], [3, 9, 18], [10, 6, 12]] true 18 [1, 0, 2] [11, 5, 12] [-2, -6, 0] = true := by
   decide +kernel
 example : (hungarian [[10, 5, 13], [3, 9, 18], [10, 6, 12]] true).asg = [1, 0, 2] := by decide +kernel
+
+/-! ### the mirror always certifies its own answer -/
+
+/-- **hungarian_certifies** ([S], the loop invariant).  On every cost matrix with at least one row
+and one column — any shape, any rational entries, either sense — the mirror of `solve_hungarian`
+terminates within its fuel (`stuck = false`) and the assignment and potentials it returns pass the
+verified checker `chkAssignment`. -/
+theorem hungarian_certifies (m : Mat) (mn : Bool) (hr : nRows m ≠ 0) (hk : nCols m ≠ 0) :
+    chkAssignment m mn (maxVal m) (hungarian m mn).asg (hungarian m mn).u (hungarian m mn).v = true ∧
+    (hungarian m mn).stuck = false := by
+  unfold hungarian
+  rw [if_neg (by rintro (h | h) <;> contradiction)]
+  simp only
+  obtain ⟨hinv, hst⟩ := runRows_inv (fun i j => padded m mn (maxVal m) (i - 1) (j - 1))
+    (max (nRows m) (nCols m))
+  exact ⟨chk_of_inv m mn _ _ _ _ hinv, hst⟩
+
+/-- **hungarian_optimal** (C10 for the mirror, all inputs).  The mirror's assignment is a matching
+of size `min rows cols` (no column twice, `-1` for the unassigned rows), the reported objective is
+the sum of the chosen entries, and that sum is the minimum (`minimize`) / maximum (otherwise) over
+all matchings of that size. -/
+theorem hungarian_optimal (m : Mat) (mn : Bool) (hr : nRows m ≠ 0) (hk : nCols m ≠ 0) :
+    ValidAsg (nRows m) (nCols m) (hungarian m mn).asg ∧
+    (hungarian m mn).obj = objOf m (hungarian m mn).asg ∧
+    ∀ m' : Fin (nRows m) → Option (Fin (nCols m)), IsMatching m' →
+      msize m' = min (nRows m) (nCols m) →
+      if mn = true then (hungarian m mn).obj ≤ mcost (cF _ _ (cell m)) m'
+      else mcost (cF _ _ (cell m)) m' ≤ (hungarian m mn).obj := by
+  obtain ⟨hV, hopt⟩ := chkAssignment_sound m mn (maxVal m) _ _ _ (hungarian_certifies m mn hr hk).1
+  have hobj : (hungarian m mn).obj = objOf m (hungarian m mn).asg := by
+    have e : (hungarian m mn).obj = totalCost m (hungarian m mn).asg := by
+      unfold hungarian
+      rw [if_neg (by rintro (h | h) <;> contradiction)]
+    rw [e]
+    unfold totalCost objOf
+    congr 1
+    apply List.map_congr_left
+    intro i hi
+    have hi' := List.mem_range.1 hi
+    rcases hV.rng i hi' with h | h
+    · simp only [h, ne_eq, not_true_eq_false, false_and, if_false, if_true]
+    · have : (hungarian m mn).asg.getD i (-1) ≠ -1 := by omega
+      simp only [ne_eq, this, not_false_eq_true, h.2, and_self, if_true, if_false]
+  refine ⟨hV, hobj, ?_⟩
+  rw [hobj]
+  exact hopt
+
+/-- the degenerate shapes (`[]`, `[[]]`, `[[], []]`): the early return of the code -/
+theorem hungarian_empty (m : Mat) (mn : Bool) (h : nRows m = 0 ∨ nCols m = 0) :
+    (hungarian m mn).asg = [] ∧ (hungarian m mn).obj = 0 := by
+  unfold hungarian
+  rw [if_pos h]
+  exact ⟨rfl, rfl⟩
+
+/-- non-vacuity of `hungarian_certifies`/`hungarian_optimal`: a 2×3 matrix with negative and
+fractional entries, maximised; the mirror assigns both rows and reaches 15/2 -/
+example : nRows [[-1, 5/2, 3], [4, -2, 5]] ≠ 0 ∧ nCols [[-1, 5/2, 3], [4, -2, 5]] ≠ 0 ∧
+    (hungarian [[-1, 5/2, 3], [4, -2, 5]] false).asg = [1, 2] ∧
+    (hungarian [[-1, 5/2, 3], [4, -2, 5]] false).obj = 15/2 := by decide +kernel
 
 end Solvor.Assign
